@@ -637,6 +637,8 @@ def run(res: Results, idx: Index, tier: str) -> None:
     rule_g(res, idx)
     res.rule("R-C08h", "chain folds refresh the nodes they re-route, or admit only operators whose shape is re-derived elsewhere", floor=2)
     rule_h(res, idx)
+    res.rule("R-C08k", "size-1 constants are left out of the refresh's broadcast merge only when their rank cannot lift the result's rank", floor=1)
+    rule_k(res, idx)
     res.rule("R-C08j", "the shape stamped on a plugin-emitted Transpose output is the operand's shape gathered through the permutation", floor=8)
     rule_j(res, idx)
 
@@ -840,3 +842,33 @@ def rule_j(res: Results, idx: Index) -> None:
                         verdict = ("UNRESOLVED", f"shape expression `{src(s_e, 60)}` not classified")
                     res.add("R-C08j", verdict[0], site, key, verdict[1], fi.qualname)
     res.analysed["transpose_stamps"] = n
+
+
+# ---------------------------------------------------------------------------------------------- R-C08k
+def rule_k(res: Results, idx: Index) -> None:
+    """In `_refresh_elementwise_output_shape` the output shape is the broadcast of the operand shapes.  An operand may be
+    left out of that merge only when it cannot influence the result: `_is_scalar_const_value` is true for ANY size-1
+    constant, also one of higher rank than the other operands ((3,) with a (1,1) constant broadcasts to (1,3)), so a skip
+    guarded by that predicate must also bound the constant's rank (`len(dims) <= 1`, `== 0`, `not dims`)."""
+    f = idx.find_func(OPT, "_refresh_elementwise_output_shape")
+    if f is None:
+        raise AnalysisError("_refresh_elementwise_output_shape not found")
+    key = f"{OPT}::_refresh_elementwise_output_shape::size-one-constant-skip"
+    loops = [lp for lp in walk_no_nested(f.node) if isinstance(lp, ast.For) and any(isinstance(c, ast.Call) and isinstance(c.func, ast.Attribute) and c.func.attr == "append" and "shapes" in src(c.func.value, 40) for c in ast.walk(lp))]
+    if not loops:
+        res.unresolved("R-C08k", f.site, key, "the loop that collects the operand shapes for the broadcast merge was not found", f.qualname)
+        return
+    lp = loops[0]
+    skips = [st for st in ast.walk(lp) if isinstance(st, ast.If) and any(isinstance(x, ast.Continue) for x in st.body)
+             and any(isinstance(c, ast.Call) and (call_name(c) or "").split(".")[-1] == "_is_scalar_const_value" for c in ast.walk(st.test))]
+    if not skips:
+        res.ok("R-C08k", f"{OPT}:{lp.lineno}", key, "no operand with a known shape is left out of the broadcast merge", f.qualname)
+        return
+    for st in skips:
+        rank_bound = any(isinstance(c, ast.Compare) and any(isinstance(x, ast.Call) and (call_name(x) or "") == "len" for x in ast.walk(c)) and any(isinstance(k, ast.Constant) and k.value in (0, 1) for k in c.comparators)
+                         and isinstance(c.ops[0], (ast.LtE, ast.Lt, ast.Eq)) for c in ast.walk(st.test)) or any(isinstance(c, ast.Attribute) and c.attr in ("ndim", "rank") for c in ast.walk(st.test))
+        if rank_bound:
+            res.ok("R-C08k", f"{OPT}:{st.lineno}", key, f"`{src(st.test, 60)}`: size-1 constants are skipped only up to rank 1", f.qualname)
+        else:
+            res.violation("R-C08k", f"{OPT}:{st.lineno}", key, f"`{src(st.test, 60)}` leaves every size-1 constant out of the broadcast merge, whatever its rank: for `maximum(x[3], c[1,1])` the output is declared "
+                          "`[3]` although the operator returns shape (1,3) — also when that value is a graph output", f.qualname)
